@@ -14,13 +14,13 @@ import (
 func init() { register("C01", checkC01) }
 
 const (
-	tChain0   = "call:certurl.ReadCertChain(call:bytes.NewReader(dyn:param:fetch(param:signature.CertUrl)#0))#0[const:0]"
+	tChain0   = "call:certurl.ReadCertChain(call:bytes.NewBuffer(dyn:param:fetch(param:signature.CertUrl)#0))#0[const:0]"
 	tCertSha  = "call:(*certurl.AugmentedCertificate).CertSha256(" + tChain0 + ")"
 	tMsgCall  = "call:signedexchange.serializeSignedMessage(param:e," + tCertSha + ",param:signature.ValidityUrl,param:signature.Date,param:signature.Expires)"
 	tVerifier = "call:signingalgorithm.VerifierForPublicKey(" + tChain0 + ".Cert.PublicKey)#0"
 	tMice     = "call:(signedexchange/version.Version).MiceEncoding(param:e.Version)"
 	tDigest   = "call:(http.Header).Get(param:e.ResponseHeaders,call:(mice.Encoding).DigestHeaderName(" + tMice + "))"
-	tDecoder  = "call:(mice.Encoding).NewDecoder(" + tMice + ",call:bytes.NewReader(param:e.Payload)," + tDigest + ",const:16384)"
+	tDecoder  = "call:(mice.Encoding).NewDecoder(" + tMice + ",call:bytes.NewBuffer(param:e.Payload)," + tDigest + ",const:16384)"
 	tSigItem  = "call:signedexchange.extractSignatureFields(call:structuredheader.ParseParameterisedList(param:e.SignatureHeaderValue)#0[rangeidx])#0"
 )
 
@@ -48,7 +48,7 @@ func verifyGatesC01() []gate.Gate {
 		gate.CallOK("V.fields", "signedexchange.extractSignatureFields", "call:structuredheader.ParseParameterisedList(param:e.SignatureHeaderValue)#0[rangeidx]"),
 		gate.CallOK("V.sigcall", "signedexchange.verifySignature", "param:e", "param:verificationTime", "param:certFetcher", tSigItem),
 		gate.CallOK("V.fetch", "dyn:param:fetch", "param:signature.CertUrl"),
-		gate.CallOK("V.chain", "certurl.ReadCertChain", "call:bytes.NewReader(dyn:param:fetch(param:signature.CertUrl)#0)"),
+		gate.CallOK("V.chain", "certurl.ReadCertChain", "call:bytes.NewBuffer(dyn:param:fetch(param:signature.CertUrl)#0)"),
 		gate.CallOK("V.alg", "signingalgorithm.VerifierForPublicKey", tChain0+".Cert.PublicKey"),
 		gate.CallOK("V.tcall", "signedexchange.verifyTimestamps", "param:signature", "param:verificationTime"),
 		gate.CallOK("V.msg", "signedexchange.serializeSignedMessage", "param:e", tCertSha, "param:signature.ValidityUrl", "param:signature.Date", "param:signature.Expires"),
@@ -58,9 +58,9 @@ func verifyGatesC01() []gate.Gate {
 		gate.CallOK("V.paycall", "signedexchange.verifyPayload", "param:e", "param:signature"),
 		gate.Cmp("V.integrity", "param:signature.Integrity", token.EQL, "call:(mice.Encoding).IntegrityIdentifier("+tMice+")"),
 		gate.Cmp("V.digest", tDigest, token.NEQ, `const:""`),
-		gate.CallOK("V.mi.dec", "(mice.Encoding).NewDecoder", tMice, "call:bytes.NewReader(param:e.Payload)", tDigest, "const:16384"),
+		gate.CallOK("V.mi.dec", "(mice.Encoding).NewDecoder", tMice, "call:bytes.NewBuffer(param:e.Payload)", tDigest, "const:16384"),
 		either("V.mi.read", "ok(ReadAll(decoder))",
-			gate.CallOK("", "ioutil.ReadAll", tDecoder+"#0"), gate.CallOK("", "io.ReadAll", tDecoder+"#0")),
+			gate.CallOK("", "io.ReadAll", tDecoder+"#0"), gate.CallOK("", "io.ReadAll", tDecoder+"#0")),
 		// ECDSA verifier (c)
 		gate.CallOK("E.asn1", "asn1.Unmarshal", "param:sig", "local:v"),
 		either("E.rest", "len(rest) == 0",
@@ -176,9 +176,9 @@ func signedMessageCoverage(e *Env) {
 			bufWrite("msg.expires", "local:buf", be8("param:expires")),
 			bufWrite("msg.url.len", "local:buf", be8("conv(len(conv(param:e.RequestURI)))")),
 			bufWrite("msg.url", "local:buf", "conv(param:e.RequestURI)"),
-			gate.CallOK("msg.headers.encode", "(*signedexchange.Exchange).encodeExchangeHeaders", "param:e", "call:cbor.NewEncoder(alloc:bytes.Buffer)"),
-			bufWrite("msg.headers.len", "local:buf", be8("conv(call:(*bytes.Buffer).Len(alloc:bytes.Buffer))")),
-			gate.CallInstr("msg.headers", "(*bytes.Buffer).WriteTo", "alloc:bytes.Buffer", "local:buf"),
+			gate.CallOK("msg.headers.encode", "(*signedexchange.Exchange).encodeExchangeHeaders", "param:e", "call:cbor.NewEncoder({alloc:bytes.Buffer|local:*})"),
+			bufWrite("msg.headers.len", "local:buf", be8("conv(call:(*bytes.Buffer).Len({alloc:bytes.Buffer|local:*}))")),
+			gate.CallInstr("msg.headers", "(*bytes.Buffer).WriteTo", "{alloc:bytes.Buffer|local:*}", "local:buf"),
 			gate.CallInstr("msg.context", "(*bytes.Buffer).WriteString", "local:buf", "call:signedexchange.contextString(param:e.Version)"),
 		)
 	}
